@@ -23,7 +23,7 @@ Definition Q (b : Z) (s s' : st) : Prop := R s s' /\ wk s <= wk s' /\ psi s' <= 
 
 Lemma P_mono : forall s s', R s s' -> (P s' <= P s)%nat.
 Proof.
-  intros s s' HR. pose proof (stuck_R s s' HR) as Hs. destruct HR as [H1 H2]. unfold P.
+  intros s s' HR. pose proof (stuck_R s s' HR) as Hs. destruct HR as [H1 [H2 _]]. unfold P.
   destruct (stuck s) eqn:E.
   - rewrite (Hs eq_refl). lia.
   - destruct (stuck s'); lia.
@@ -54,14 +54,24 @@ Proof. intros s H. unfold P in H. destruct (stuck s); [reflexivity|lia]. Qed.
 
 (* ---- state updates *)
 Ltac qof := intros; apply Q_of; [auto using R_set_error, R_force_error, R_add_ref, R_add_class, R_add_alloc, R_add_excess,
-  R_add_steps, R_set_corrupt, R_set_simple, R_reset_refs, R_spin_by|unfold wk; cbn; lia|unfold wk; cbn; lia|unfold sx; cbn; lia].
+  R_add_steps, R_set_corrupt, R_set_simple, R_reset_refs, R_spin_by, R_skip_by, R_charge|unfold wk; cbn; lia|unfold wk; cbn; lia|unfold sx; cbn; lia].
 
 Lemma Q_set_error : forall s k, Q 0 s (set_error s k). Proof. qof. Qed.
 Lemma Q_force_error : forall s k, Q 0 s (force_error s k). Proof. qof. Qed.
 Lemma Q_add_ref : forall s r, Q 0 s (add_ref s r).
 Proof. intros. apply Q_of; [apply R_add_ref| | |]; unfold wk, sx, add_ref; destruct (simple s); cbn; lia. Qed.
 Lemma Q_add_class : forall s c, Q 0 s (add_class s c). Proof. qof. Qed.
-Lemma Q_add_alloc : forall s n, Q 0 s (add_alloc s n). Proof. qof. Qed.
+Lemma Q_add_alloc : forall s n, Q 1 s (add_alloc s n). Proof. qof. Qed.
+Lemma Q_charge : forall s n, Q 1 s (charge s n).
+Proof. intros. unfold charge. destruct (n =? 0)%N; [eapply Q_le; [apply Q_refl|lia]|apply Q_add_alloc]. Qed.
+Lemma Q_skip_by : forall s n p, Q 0 s (skip_by s n p). Proof. qof. Qed.
+Lemma Q_short_by : forall s e ex a u, (a <= u * (ex + N.of_nat (len (rest s))))%N ->
+  Q 1 s (short_by s (merge (err s) e) ex a u).
+Proof. intros. apply Q_of; [apply R_short_by; assumption|unfold wk; cbn; lia|unfold wk; cbn; lia|unfold sx; cbn; lia]. Qed.
+Lemma stuck_add_alloc : forall s n, stuck (add_alloc s n) = stuck s.
+Proof. reflexivity. Qed.
+Lemma stuck_charge : forall s n, stuck (charge s n) = stuck s.
+Proof. intros. unfold charge. destruct (n =? 0)%N; reflexivity. Qed.
 Lemma Q_add_excess : forall s n, Q 0 s (add_excess s n). Proof. qof. Qed.
 Lemma Q_add_steps1 : forall s, Q 1 s (add_steps s 1). Proof. qof. Qed.
 Lemma Q_set_corrupt : forall s, Q 0 s (set_corrupt s). Proof. qof. Qed.
@@ -157,6 +167,8 @@ Ltac solveQ :=
   | |- Q _ ?s (add_class ?x _) => eapply (Q_trans _ _ s x); [solveQ|apply Q_add_class]
   | |- Q _ ?s (add_alloc ?x _) => eapply (Q_trans _ _ s x); [solveQ|apply Q_add_alloc]
   | |- Q _ ?s (add_excess ?x _) => eapply (Q_trans _ _ s x); [solveQ|apply Q_add_excess]
+  | |- Q _ ?s (charge ?x _) => eapply (Q_trans _ _ s x); [solveQ|apply Q_charge]
+  | |- Q _ ?s (skip_by ?x _ _) => eapply (Q_trans _ _ s x); [solveQ|apply Q_skip_by]
   | |- Q _ ?s (add_steps ?x 1%N) => eapply (Q_trans _ _ s x); [solveQ|apply Q_add_steps1]
   | |- Q _ ?s (set_corrupt ?x) => eapply (Q_trans _ _ s x); [solveQ|apply Q_set_corrupt]
   | |- Q _ ?s (set_simple ?x _) => eapply (Q_trans _ _ s x); [solveQ|apply Q_set_simple]
@@ -217,13 +229,13 @@ Proof.
   - cbn [allQ]. apply Q_set_rest1. rewrite E. cbn. lia.
   - assert (Hs : forall k, Q 1 s (set_rest s (skipn k (b :: w)) (err s) 1)).
     { intros k. apply Q_set_rest1_same. rewrite E. apply len_skipn. }
-    assert (He : forall e, Q 1 s (set_rest s [] (merge (err s) e) 1)).
-    { intros e. apply Q_set_rest1. cbn. lia. }
     destruct (n <? 0)%Z; [leafAQ|].
-    destruct (fits (b :: w) n); [cbn [allQ]; apply Hs|].
-    pose proof (He (Some EEOF)) as He'.
-    destruct (fx_next fx); [leafAQ|].
-    destruct (max_alloc <? Z.to_N n)%N; leafAQ.
+    destruct (fits (b :: w) n) eqn:Ef; [cbn [allQ]; apply Hs|].
+    apply fits_false in Ef.
+    assert (H0 : forall ex, Q 1 s (short_by s (merge (err s) (Some EEOF)) ex 0 1)) by (intros; apply Q_short_by; lia).
+    destruct (fx_next fx); [cbn [allQ]; apply H0|].
+    destruct (max_alloc <? Z.to_N n)%N; cbn [allQ]; [split; [leafQ|apply H0]|].
+    apply Q_short_by. rewrite E. lia.
 Qed.
 
 Lemma allQ_read_str_slow : forall fx n b w s, rest s = b :: w -> allQ 1 s (read_str_slow fx n (b :: w) s).
@@ -231,12 +243,13 @@ Proof.
   intros fx n b w s E. unfold read_str_slow.
   assert (Hs : forall k, Q 1 s (set_rest s (skipn k (b :: w)) (err s) 1)).
   { intros k. apply Q_set_rest1_same. rewrite E. apply len_skipn. }
-  pose proof (Q_set_rest1 s [] (Some EEOF)) as He. specialize (He ltac:(cbn; lia)).
+  assert (H0 : forall ex, Q 1 s (short_by s (merge (err s) (Some EEOF)) ex 0 3)) by (intros; apply Q_short_by; lia).
   destruct (str_scan _ false _ _ _); try leafAQ.
   destruct ((off <? len (b :: w))%nat || _); [cbn [allQ]; apply Hs|].
-  destruct (fx_str fx); [leafAQ|].
-  destruct (wrap_int (n0 * 3) <? 0)%Z; [leafAQ|].
-  destruct (max_alloc <? _)%N; leafAQ.
+  destruct (fx_str fx); [cbn [allQ]; apply H0|].
+  destruct (wrap_int (n0 * 3) <? 0)%Z; [cbn [allQ]; split; [leafQ|apply H0]|].
+  destruct (max_alloc <? _)%N; cbn [allQ]; [split; [leafQ|apply H0]|].
+  apply Q_short_by. lia.
 Qed.
 
 Lemma allQ_read_str : forall fx n s, allQ 1 s (read_str fx n s).
@@ -336,14 +349,17 @@ Proof. intros s. unfold read_string. solveH. Qed.
 Lemma allQ_read_bytes : forall s, allQ 3 s (read_bytes fx s).
 Proof. intros s. unfold read_bytes. solveH. Qed.
 
-Lemma allQ_convert : forall dest r s, allQ 0 s (convert orc fx r dest s).
+Lemma allQ_convert_gen : forall dest (ch : bool) r s, allQ (if ch then 1 else 0) s (convert orc fx ch r dest s).
 Proof.
-  induction dest; intros r s; destruct r; cbn [convert]; solveH;
-  try (match goal with H : forall r s, allQ 0 s (convert _ _ r ?e s) |- allQ _ ?s0 (bnd (convert _ _ _ ?e ?x) _) =>
-         eapply allQ_bnd_ex; [eapply (allQ_weaken _ _ _ _ s0 x); [solveQ|apply H]|intros ? ? ?|num] end; solveH).
+  induction dest; intros ch r s; destruct r; destruct ch; cbn [convert]; solveH.
+  all: match goal with |- allQ _ ?s0 (bnd (convert _ _ false _ ?e ?x) _) =>
+         eapply allQ_bnd_ex; [eapply (allQ_weaken _ _ _ _ s0 x); [solveQ|apply (IHdest false)]|intros ? ? ?|num] end.
+  all: solveH.
 Qed.
+Lemma allQ_convert : forall dest r s, allQ 1 s (convert orc fx true r dest s).
+Proof. intros. apply (allQ_convert_gen dest true). Qed.
 
-Lemma allQ_read_reference : forall dest s, allQ 1 s (read_reference orc fx dest s).
+Lemma allQ_read_reference : forall dest s, allQ 2 s (read_reference orc fx dest s).
 Proof.
   intros dest s. unfold read_reference. open_primsQ.
   destruct ((z <? 0)%Z || _); [leafAQ|].
@@ -377,56 +393,81 @@ Proof.
 Qed.
 
 (* loops: an iteration that starts with the decoder not stuck consumes input *)
+(* slot 0 (nothing charged): the body may start with a hazard node at the iteration's own state *)
 Lemma allQ_loop' : forall (body : st -> out unit) per p0,
   (forall x, (P x <= p0)%nat -> stuck x = false ->
      allQ 0 x (body x) /\ allLeaf (fun s' => (P s' < P x)%nat) (body x)) ->
-  forall k n s, (P s <= k)%nat -> (P s <= p0)%nat -> allQ 0 s (loop fx k body per n s).
+  forall k n s, (P s <= k)%nat -> (P s <= p0)%nat -> allQ 0 s (loop fx k body 0 per n s).
 Proof.
   intros body per p0 Hb. induction k as [|k IH]; intros n s Hk Hp; cbn [loop].
   - destruct (n <=? 0)%Z; [leafAQ|]. destruct (stuck s) eqn:E; [leafAQ|].
     rewrite (P0_stuck s) in E by lia. discriminate.
   - destruct (n <=? 0)%Z; [leafAQ|]. destruct (stuck s) eqn:E; [leafAQ|].
     destruct (fx_loop fx && has_err s); [leafAQ|].
+    change (charge s 0) with s.
     destruct (Hb s Hp E) as [H1 H2].
     replace 0 with (0 + 0) by lia. eapply allQ_bnd_leaf; [exact H1|exact H2| |lia].
     intros a x Hq Hlt. cbv beta in Hlt. apply IH; [lia|]. pose proof (Q_P _ _ _ Hq). lia.
 Qed.
-Lemma allQ_loop : forall (body : st -> out unit) per p0,
-  (forall x, (P x <= p0)%nat -> stuck x = false -> allQ (-1) x (body x)) ->
-  forall k n s, (P s <= k)%nat -> (P s <= p0)%nat -> allQ 0 s (loop fx k body per n s).
+(* any slot: the body more than pays for the charge *)
+Lemma allQ_loop : forall (body : st -> out unit) slot per p0,
+  (forall x, (P x <= p0)%nat -> stuck x = false -> allQ (-2) x (body x)) ->
+  forall k n s, (P s <= k)%nat -> (P s <= p0)%nat -> allQ 0 s (loop fx k body slot per n s).
 Proof.
-  intros body per p0 Hb. apply allQ_loop'. intros x Hx E. split.
-  - eapply allQ_le; [apply Hb; auto|lia].
-  - eapply allQ_neg_leaf; [apply Hb; auto|lia].
+  intros body slot per p0 Hb. induction k as [|k IH]; intros n s Hk Hp; cbn [loop].
+  - destruct (n <=? 0)%Z; [leafAQ|]. destruct (stuck s) eqn:E; [leafAQ|].
+    rewrite (P0_stuck s) in E by lia. discriminate.
+  - destruct (n <=? 0)%Z; [leafAQ|]. destruct (stuck s) eqn:E; [leafAQ|].
+    destruct (fx_loop fx && has_err s); [leafAQ|].
+    pose proof (Q_charge s slot) as Hc. pose proof (Q_P _ _ _ Hc) as HPc.
+    assert (Hbody : allQ (-1) s (body (charge s slot))).
+    { replace (-1) with (1 + -2) by lia. eapply allQ_weaken; [exact Hc|]. apply Hb; [lia|rewrite stuck_charge; exact E]. }
+    replace 0 with (-1 + 1) by lia. eapply allQ_bnd_Q; [exact Hbody| |lia].
+    intros a x Hq. eapply allQ_le; [apply IH|lia].
+    + pose proof (Q_neg_P _ _ _ Hq ltac:(lia)). lia.
+    + pose proof (Q_P _ _ _ Hq). lia.
 Qed.
 
-Lemma allQ_iter_names : forall (body : bytes -> st -> out unit) per p0,
+Lemma allQ_iter_names0 : forall (body : bytes -> st -> out unit) p0,
   (forall nm x, (P x <= p0)%nat -> stuck x = false -> allQ 0 x (body nm x)) ->
-  forall l s, (P s <= p0)%nat -> allQ 0 s (iter_names fx body per l s).
+  forall l s, (P s <= p0)%nat -> allQ 0 s (iter_names fx body 0 l s).
 Proof.
-  intros body per p0 Hb. induction l as [|nm l IH]; intros s Hp; cbn [iter_names]; [leafAQ|].
+  intros body p0 Hb. induction l as [|nm l IH]; intros s Hp; cbn [iter_names]; [leafAQ|].
   destruct (stuck s) eqn:E; [leafAQ|]. destruct (fx_loop fx && has_err s); [leafAQ|].
+  change (charge s 0) with s.
   replace 0 with (0 + 0) by lia. eapply allQ_bnd_Q; [apply Hb; auto| |lia].
   intros a x Hq. apply IH. pose proof (Q_P _ _ _ Hq). lia.
 Qed.
+Lemma allQ_iter_names : forall (body : bytes -> st -> out unit) slot p0,
+  (forall nm x, (P x <= p0)%nat -> stuck x = false -> allQ (-2) x (body nm x)) ->
+  forall l s, (P s <= p0)%nat -> allQ 0 s (iter_names fx body slot l s).
+Proof.
+  intros body slot p0 Hb. induction l as [|nm l IH]; intros s Hp; cbn [iter_names]; [leafAQ|].
+  destruct (stuck s) eqn:E; [leafAQ|]. destruct (fx_loop fx && has_err s); [leafAQ|].
+  pose proof (Q_charge s slot) as Hc. pose proof (Q_P _ _ _ Hc) as HPc.
+  assert (Hbody : allQ (-1) s (body nm (charge s slot))).
+  { replace (-1) with (1 + -2) by lia. eapply allQ_weaken; [exact Hc|]. apply Hb; [lia|rewrite stuck_charge; exact E]. }
+  replace 0 with (-1 + 1) by lia. eapply allQ_bnd_Q; [exact Hbody| |lia].
+  intros a x Hq. eapply allQ_le; [apply IH|lia]. pose proof (Q_P _ _ _ Hq). lia.
+Qed.
 
-Lemma allQ_over_names' : forall lf (body : bytes -> st -> out unit) per c p0, (p0 <= lf)%nat ->
+Lemma allQ_over_names' : forall lf (body : bytes -> st -> out unit) c p0, (p0 <= lf)%nat ->
   (forall nm x, (P x <= p0)%nat -> stuck x = false ->
      allQ 0 x (body nm x) /\ allLeaf (fun s' => (P s' < P x)%nat) (body nm x)) ->
-  forall s, (P s <= p0)%nat -> allQ 0 s (over_names fx lf body per c s).
+  forall s, (P s <= p0)%nat -> allQ 0 s (over_names fx lf body 0 c s).
 Proof.
-  intros lf body per c p0 Hlf Hb s Hp. unfold over_names.
-  replace 0 with (0 + 0) by lia. eapply allQ_bnd_Q; [apply (allQ_iter_names _ _ p0); auto| |lia].
+  intros lf body c p0 Hlf Hb s Hp. unfold over_names.
+  replace 0 with (0 + 0) by lia. eapply allQ_bnd_Q; [apply (allQ_iter_names0 _ p0); auto| |lia].
   - intros nm x H1 H2. apply Hb; auto.
   - intros a x Hq. pose proof (Q_P _ _ _ Hq). apply (allQ_loop' _ _ p0); [intros; apply Hb; auto|lia|lia].
 Qed.
-Lemma allQ_over_names : forall lf (body : bytes -> st -> out unit) per c p0, (p0 <= lf)%nat ->
-  (forall nm x, (P x <= p0)%nat -> stuck x = false -> allQ (-1) x (body nm x)) ->
-  forall s, (P s <= p0)%nat -> allQ 0 s (over_names fx lf body per c s).
+Lemma allQ_over_names : forall lf (body : bytes -> st -> out unit) slot c p0, (p0 <= lf)%nat ->
+  (forall nm x, (P x <= p0)%nat -> stuck x = false -> allQ (-2) x (body nm x)) ->
+  forall s, (P s <= p0)%nat -> allQ 0 s (over_names fx lf body slot c s).
 Proof.
-  intros lf body per c p0 Hlf Hb. apply allQ_over_names'; [exact Hlf|]. intros nm x Hx E. split.
-  - eapply allQ_le; [apply Hb; auto|lia].
-  - eapply allQ_neg_leaf; [apply Hb; auto|lia].
+  intros lf body slot c p0 Hlf Hb s Hp. unfold over_names.
+  replace 0 with (0 + 0) by lia. eapply allQ_bnd_Q; [apply (allQ_iter_names _ _ p0); auto| |lia].
+  intros a x Hq. pose proof (Q_P _ _ _ Hq). apply (allQ_loop _ _ _ p0); [intros; apply Hb; auto|lia|lia].
 Qed.
 
 Definition rank (sh : shape) : nat := match sh with SPtr _ => 2 | SIface => 0 | _ => 1 end.
@@ -437,17 +478,14 @@ Variable rt : shape -> byte -> st -> out aval.
 Variable lf p0 r0 : nat.     (* r0: rank of the shape being decoded *)
 Hypothesis Hlf : (p0 <= lf)%nat.
 Hypothesis Hrv : forall sh x, (P x <= p0)%nat -> allQ 1 x (rv sh x).
-Hypothesis HrvL : forall sh x, (P x <= p0)%nat -> stuck x = false -> allQ (-2) x (rv sh x).
+Hypothesis HrvL : forall sh x, (P x <= p0)%nat -> stuck x = false -> allQ (-20) x (rv sh x).
 Hypothesis HrtI : forall t x, (P x <= p0)%nat -> (1 <= r0)%nat -> allQ (c0 + 1) x (rt SIface t x).
 Hypothesis Hrt1 : forall sh t x, (P x <= p0)%nat -> (rank sh <= 1)%nat -> (2 <= r0)%nat -> allQ (2 * c0 + 1) x (rt sh t x).
-
-Lemma stuck_add_alloc : forall s n, stuck (add_alloc s n) = stuck s.
-Proof. reflexivity. Qed.
 
 (* rv in sequence position *)
 Ltac bndRv x := match goal with
   | Hl : stuck ?y = false |- allQ _ ?s0 (bnd (rv _ (add_alloc ?y ?n)) _) =>
-      eapply allQ_bnd_ex; [eapply (allQ_weaken _ _ _ _ s0 x); [solveQ|apply HrvL; [pbound|rewrite stuck_add_alloc; exact Hl]]|intros ? ? ?|num]
+      eapply allQ_bnd_ex; [eapply (allQ_weaken _ _ _ _ s0 x); [solveQ|apply HrvL; [pbound|rewrite ?stuck_add_alloc, ?stuck_charge; exact Hl]]|intros ? ? ?|num]
   | Hl : stuck x = false |- allQ _ ?s0 (bnd _ _) =>
       eapply allQ_bnd_ex; [eapply (allQ_weaken _ _ _ _ s0 x); [solveQ|apply HrvL; [pbound|exact Hl]]|intros ? ? ?|num]
   | |- allQ _ ?s0 (bnd _ _) =>
@@ -482,7 +520,10 @@ Proof.
     rewrite (P0_stuck s) in E by lia. discriminate.
   - destruct (n <=? 0)%Z; [leafAQ|]. destruct (stuck s) eqn:E; [leafAQ|].
     destruct (fx_loop fx && has_err s); [leafAQ|].
-    replace 0 with (-2 + 2) by lia. eapply allQ_bnd_Q; [apply HrvL; auto| |lia].
+    pose proof (Q_add_alloc s 16) as Hc. pose proof (Q_P _ _ _ Hc) as HPc.
+    assert (Hbody : allQ (-19) s (rv SString (add_alloc s 16))).
+    { replace (-19) with (1 + -20) by lia. eapply allQ_weaken; [exact Hc|]. apply HrvL; [lia|exact E]. }
+    replace 0 with (-19 + 19) by lia. eapply allQ_bnd_Q; [exact Hbody| |lia].
     intros a x Hq. eapply allQ_le; [apply IH|lia].
     + pose proof (Q_neg_P _ _ _ Hq ltac:(lia)). lia.
     + pose proof (Q_P _ _ _ Hq). lia.
@@ -496,12 +537,15 @@ Proof.
     rewrite (P0_stuck s) in E by lia. discriminate.
   - destruct (n <=? 0)%Z; [leafAQ|]. destruct (stuck s) eqn:E; [leafAQ|].
     destruct (fx_loop fx && has_err s); [leafAQ|].
-    replace 0 with (-2 + 2) by lia. eapply allQ_bnd_Q; [apply HrvL; auto| |lia].
+    pose proof (Q_add_alloc s (map_entry ks vs)) as Hc. pose proof (Q_P _ _ _ Hc) as HPc.
+    assert (Hkey : allQ (-19) s (rv ks (add_alloc s (map_entry ks vs)))).
+    { replace (-19) with (1 + -20) by lia. eapply allQ_weaken; [exact Hc|]. apply HrvL; [lia|exact E]. }
+    replace 0 with (-19 + 19) by lia. eapply allQ_bnd_Q; [exact Hkey| |lia].
     intros kv x Hq.
     assert (Hx : (P x < P s)%nat) by (apply (Q_neg_P _ _ _ Hq); lia).
-    replace 2 with (1 + 1) by lia. eapply allQ_bnd_Q; [apply Hrv; lia| |lia].
+    replace 19 with (1 + 18) by lia. eapply allQ_bnd_Q; [apply Hrv; lia| |lia].
     intros vv y Hq2. pose proof (Q_P _ _ _ Hq2) as Hy.
-    assert (Hgo : forall acc', allQ 1 y (map_loop fx rv k ks vs per (n - 1) acc' y)).
+    assert (Hgo : forall acc', allQ 18 y (map_loop fx rv k ks vs per (n - 1) acc' y)).
     { intros acc'. eapply allQ_le; [apply IH; lia|lia]. }
     destruct ks; try apply Hgo.
     destruct (hashable kv); [apply Hgo|].
@@ -511,7 +555,7 @@ Proof.
     + pose proof (Q_P _ _ _ (Q_set_error y KDecode)). lia.
 Qed.
 
-Lemma allQ_read_struct : forall sh s, (P s <= p0)%nat -> allQ 12 s (read_struct registry fx rv lf sh s).
+Lemma allQ_read_struct : forall sh s, (P s <= p0)%nat -> allQ 20 s (read_struct registry fx rv lf sh s).
 Proof.
   intros sh s Hp. unfold read_struct. solveI.
   match goal with |- allQ _ ?s0 (bnd (names_loop _ _ _ _ _ ?x) _) =>
@@ -529,16 +573,16 @@ Qed.
 
 Lemma allQ_decode_field : forall f nm s, (P s <= p0)%nat -> allQ 1 s (decode_field rv f nm s).
 Proof. intros f nm s Hp. unfold decode_field. solveI. Qed.
-Lemma allQ_decode_field_live : forall f nm s, (P s <= p0)%nat -> stuck s = false -> allQ (-2) s (decode_field rv f nm s).
+Lemma allQ_decode_field_live : forall f nm s, (P s <= p0)%nat -> stuck s = false -> allQ (-20) s (decode_field rv f nm s).
 Proof. intros f nm s Hp Hl. unfold decode_field. solveI. Qed.
 
 Ltac namesQ := match goal with |- allQ _ ?s0 (bnd (over_names _ _ _ _ _ ?x) _) =>
   assert ((P x <= p0)%nat) by pbound;
   eapply allQ_bnd_ex; [eapply (allQ_weaken _ _ _ _ s0 x); [solveQ|apply (allQ_over_names lf _ _ _ p0 Hlf); [intros ? ? ? ?|assumption]]|intros ? ? ?|num] end.
 
-Lemma allQ_read_object : forall s, (P s <= p0)%nat -> allQ 6 s (read_object fx rv lf s).
+Lemma allQ_read_object : forall s, (P s <= p0)%nat -> allQ 20 s (read_object fx rv lf s).
 Proof.
-  intros s Hp. unfold read_object. replace 6 with (1 + 5) by lia. apply allQ_get_class; [lia| |exact Hp].
+  intros s Hp. unfold read_object. replace 20 with (1 + 19) by lia. apply allQ_get_class; [lia| |exact Hp].
   intros c x Hx. solveI; namesQ; solveI.
   eapply allQ_le; [apply allQ_decode_field_live; assumption|lia].
 Qed.
@@ -550,7 +594,7 @@ Proof.
 Qed.
 
 Lemma allQ_default_decode : forall sh tag s, (P s <= p0)%nat -> (1 <= r0)%nat ->
-  allQ (c0 + 21) s (default_decode orc registry fx rv rt lf sh tag s).
+  allQ (c0 + 40) s (default_decode orc registry fx rv rt lf sh tag s).
 Proof.
   intros sh tag s Hp Hr0. unfold default_decode. solveI.
   - eapply allQ_bnd_ex; [apply allQ_read_struct; exact Hp|intros ? ? ?|unfold c0; lia]. solveI.
@@ -567,9 +611,9 @@ Ltac stepJ :=
       eapply allQ_le; [eapply (allQ_weaken _ _ _ _ s0 x); [solveQ|apply allQ_default_decode; [pbound|assumption]]|num]
   | |- allQ _ ?s0 (decode_error _ _ ?x) =>
       eapply allQ_le; [eapply (allQ_weaken _ _ _ _ s0 x); [solveQ|apply allQ_decode_error; [pbound|assumption]]|num]
-  | |- allQ _ ?s0 (bnd (loop _ _ _ _ _ ?x) _) =>
+  | |- allQ _ ?s0 (bnd (loop _ _ _ _ _ _ ?x) _) =>
       assert ((P x <= p0)%nat) by pbound;
-      eapply allQ_bnd_ex; [eapply (allQ_weaken _ _ _ _ s0 x); [solveQ|apply (allQ_loop _ _ p0); [intros ? ? ?|lia|assumption]]|intros ? ? ?|num]
+      eapply allQ_bnd_ex; [eapply (allQ_weaken _ _ _ _ s0 x); [solveQ|apply (allQ_loop _ _ _ p0); [intros ? ? ?|lia|assumption]]|intros ? ? ?|num]
   | |- allQ _ _ (bnd (over_names _ _ _ _ _ _) _) => namesQ
   | _ => stepI
   end.
@@ -580,10 +624,10 @@ Proof. intros s. unfold str_u. solveJ. Qed.
 Lemma allQ_str_s : forall s, allQ 3 s (str_s fx s).
 Proof. intros s. unfold str_s. destruct (simple s); [apply allQ_read_string_body|apply allQ_read_string]. Qed.
 
-Lemma allQ_list_iface : forall s, (P s <= p0)%nat -> allQ 6 s (list_iface fx rv lf s).
+Lemma allQ_list_iface : forall s, (P s <= p0)%nat -> allQ 20 s (list_iface fx rv lf s).
 Proof. intros s Hp. unfold list_iface. solveJ. Qed.
 
-Lemma allQ_decode_map : forall ks vs s, (P s <= p0)%nat -> allQ 6 s (decode_map fx rv lf ks vs s).
+Lemma allQ_decode_map : forall ks vs s, (P s <= p0)%nat -> allQ 20 s (decode_map fx rv lf ks vs s).
 Proof.
   intros ks vs s Hp. unfold decode_map. solveJ.
   all: match goal with |- allQ _ ?s0 (bnd (map_loop _ _ _ _ _ _ _ _ ?x) _) =>
@@ -619,7 +663,7 @@ Lemma allQ_dec_num : forall k tag s, (P s <= p0)%nat -> (1 <= r0)%nat -> allQ (2
 Proof. intros k tag s Hp Hr0. unfold dec_num, c0. solveK; destruct k; solveK. Qed.
 Lemma allQ_dec_string : forall tag s, (P s <= p0)%nat -> (1 <= r0)%nat -> allQ (2 * c0) s (dec_string orc registry fx rv rt lf tag s).
 Proof. intros tag s Hp Hr0. unfold dec_string, c0. solveK. Qed.
-Lemma allQ_uint8_slice : forall s, (P s <= p0)%nat -> allQ 6 s (uint8_slice fx rv lf s).
+Lemma allQ_uint8_slice : forall s, (P s <= p0)%nat -> allQ 20 s (uint8_slice fx rv lf s).
 Proof. intros s Hp. unfold uint8_slice. solveK. Qed.
 Lemma allQ_dec_bytes : forall tag s, (P s <= p0)%nat -> (1 <= r0)%nat -> allQ (2 * c0) s (dec_bytes orc registry fx rv rt lf tag s).
 Proof.
@@ -634,7 +678,7 @@ Lemma allQ_dec_uuid : forall tag s, (P s <= p0)%nat -> (1 <= r0)%nat -> allQ (2 
 Proof. intros tag s Hp Hr0. unfold dec_uuid, c0. solveK. Qed.
 Lemma allQ_dec_slice : forall e tag s, (P s <= p0)%nat -> (1 <= r0)%nat -> allQ (2 * c0) s (dec_slice orc registry fx rv rt lf e tag s).
 Proof. intros e tag s Hp Hr0. unfold dec_slice, c0. solveK. Qed.
-Lemma allQ_dec_array_list : forall n e s, (P s <= p0)%nat -> allQ 6 s (dec_array_list fx rv lf n e s).
+Lemma allQ_dec_array_list : forall n e s, (P s <= p0)%nat -> allQ 20 s (dec_array_list fx rv lf n e s).
 Proof. intros n e s Hp. unfold dec_array_list. solveK. Qed.
 Lemma allQ_dec_array : forall n e tag s, (P s <= p0)%nat -> (1 <= r0)%nat -> allQ (2 * c0) s (dec_array orc registry fx rv rt lf n e tag s).
 Proof.
@@ -643,17 +687,19 @@ Proof.
 Qed.
 
 (* the body of decodeObjectAsMap's loop: a field the struct lacks is a hazard before anything is read *)
-Lemma objmap_body : forall f nm x, (P x <= p0)%nat -> stuck x = false ->
+Lemma objmap_body : forall ent f nm x, (P x <= p0)%nat -> stuck x = false ->
   let body := match flookup nm f with
-              | Some fs => unit_of (rv fs (add_alloc x (size fs)))
-              | None => RHaz HObjMapField x (unit_of (rv SIface x))
+              | Some fs => unit_of (rv fs (add_alloc (add_alloc x ent) (size fs)))
+              | None => RHaz HObjMapField x (unit_of (rv SIface (add_alloc x ent)))
               end in
   allQ 0 x body /\ allLeaf (fun s' => (P s' < P x)%nat) body.
 Proof.
-  intros f nm x Hp E. cbv zeta. destruct (flookup nm f).
-  - assert (H : allQ (-2) x (unit_of (rv s (add_alloc x (size s))))) by solveI.
+  intros ent f nm x Hp E. cbv zeta. destruct (flookup nm f).
+  - assert (H : allQ (-18) x (unit_of (rv s (add_alloc (add_alloc x ent) (size s))))).
+    { unfold unit_of. eapply allQ_bnd_ex; [eapply (allQ_weaken _ _ _ _ x (add_alloc (add_alloc x ent) (size s))); [solveQ|apply HrvL; [pbound|exact E]]|intros ? ? ?|num]. leafAQ. }
     split; [eapply allQ_le; [exact H|lia]|eapply allQ_neg_leaf; [exact H|lia]].
-  - assert (H : allQ (-2) x (unit_of (rv SIface x))) by solveI.
+  - assert (H : allQ (-19) x (unit_of (rv SIface (add_alloc x ent)))).
+    { unfold unit_of. eapply allQ_bnd_ex; [eapply (allQ_weaken _ _ _ _ x (add_alloc x ent)); [solveQ|apply HrvL; [pbound|exact E]]|intros ? ? ?|num]. leafAQ. }
     cbn [allQ allLeaf]. split; [split; [apply Q_refl|eapply allQ_le; [exact H|lia]]|eapply allQ_neg_leaf; [exact H|lia]].
 Qed.
 
@@ -674,15 +720,15 @@ Proof.
     match ctype c with
     | Some t =>
         bnd (over_names fx lf (fun nm x0 => match flookup nm (struct_fields t) with
-                                            | Some fs => unit_of (rv fs (add_alloc x0 (size fs)))
-                                            | None => RHaz HObjMapField x0 (unit_of (rv SIface x0))
+                                            | Some fs => unit_of (rv fs (add_alloc (add_alloc x0 (map_entry ks vs)) (size fs)))
+                                            | None => RHaz HObjMapField x0 (unit_of (rv SIface (add_alloc x0 (map_entry ks vs))))
                                             end) 0 c s2)
           (fun _ s3 => ROk (AOther false) (skip1 s3))
-    | None => bnd (over_names fx lf (fun _ x0 => unit_of (rv SIface x0)) 0 c s2)
+    | None => bnd (over_names fx lf (fun _ x0 => unit_of (rv SIface x0)) (map_entry ks vs) c s2)
                 (fun _ s3 => ROk (AOther false) (skip1 s3))
     end).
   { destruct (ctype c).
-    - eapply allQ_bnd_ex; [eapply (allQ_weaken _ _ _ _ x s2); [exact H2|apply (allQ_over_names' lf _ _ _ p0 Hlf); [|exact Hp2]]|intros ? ? ?|num].
+    - eapply allQ_bnd_ex; [eapply (allQ_weaken _ _ _ _ x s2); [exact H2|apply (allQ_over_names' lf _ _ p0 Hlf); [|exact Hp2]]|intros ? ? ?|num].
       + intros nm y Hy Ey. apply objmap_body; assumption.
       + solveK.
     - solveK. }
@@ -733,13 +779,13 @@ Proof.
   eapply (allQ_weaken _ _ _ _ s (add_steps s 1)); [apply Q_add_steps1|].
   assert (HP1 : (P (add_steps s 1) <= P s)%nat) by (apply (Q_P _ _ _ (Q_add_steps1 s))).
   assert (Hlive : forall sh' x, (P x <= P s)%nat -> stuck x = false ->
-            allQ (-2) x (let '(t, s1) := next_byte x in dec_tag orc registry fx f sh' t s1)).
+            allQ (-20) x (let '(t, s1) := next_byte x in dec_tag orc registry fx f sh' t s1)).
   { intros sh' x Hx E.
     pose proof (Q_next_byte_live x E) as Hn. destruct (next_byte x) as [t x1]. cbn [snd] in Hn.
     eapply allQ_le; [eapply (allQ_weaken _ _ _ _ x x1); [exact Hn|apply IH]|].
     - pose proof (Q_neg_P _ _ _ Hn ltac:(unfold K; lia)). unfold need in *. destruct sh'; cbn [rank]; lia.
     - pose proof (cost_le sh'). unfold K, c0 in *. lia. }
-  apply (allQ_dec_tag_body (fun sh' s' => if stuck s' then ROk ANil (add_steps (add_alloc s' (stuck_alloc sh')) 1)
+  apply (allQ_dec_tag_body (fun sh' s' => if stuck s' then ROk ANil (add_alloc s' (stuck_alloc sh'))
                                           else let '(t, s1) := next_byte s' in dec_tag orc registry fx f sh' t s1)
            (dec_tag orc registry fx f) f (P s) (rank sh)); try exact HP1; try reflexivity.
   - unfold need in Hf. lia.
@@ -761,7 +807,7 @@ Proof.
 Qed.
 (* with input left, a decode pays for itself *)
 Lemma allQ_dec_val_live : forall fuel sh s, (3 * P s + 3 <= fuel)%nat -> stuck s = false ->
-  allQ (-2) s (dec_val orc registry fx fuel sh s).
+  allQ (-20) s (dec_val orc registry fx fuel sh s).
 Proof.
   intros fuel sh s Hf E. unfold dec_val. rewrite E.
   pose proof (Q_next_byte_live s E) as Hn. destruct (next_byte s) as [t x1]. cbn [snd] in Hn.
@@ -833,8 +879,6 @@ Proof.
   - match goal with |- allQ _ ?a (k _ _ ?y) => eapply allQ_le; [eapply (allQ_weaken _ _ _ _ a y); [solveQ|apply Hk; pbound]|num] end.
 Qed.
 
-Lemma stuck_add_alloc' : forall s n, stuck (add_alloc s n) = stuck s.
-Proof. reflexivity. Qed.
 
 Lemma allQ_args_loop : forall m k i n s, (P s <= k)%nat -> (P s <= p0)%nat ->
   allQ 0 s (args_loop orc registry fx fuel k m i n s).
@@ -844,11 +888,11 @@ Proof.
     rewrite (P0_stuck s) in E by lia. discriminate.
   - destruct (n <=? 0)%Z; [leafAQ|]. destruct (stuck s) eqn:E; [leafAQ|].
     destruct (fx_loop fx && has_err s); [leafAQ|].
-    set (x := add_alloc s _).
-    assert (Hx : Q 0 s x) by apply Q_add_alloc.
+    set (x := add_alloc (add_alloc s 32) _).
+    assert (Hx : Q 2 s x) by (unfold x; eapply Q_le; [solveQ|lia]).
     pose proof (Q_P _ _ _ Hx) as HPx.
-    replace 0 with (0 + (-2 + 2)) by lia. eapply (allQ_weaken _ _ _ _ s x); [exact Hx|].
-    eapply allQ_bnd_Q; [apply allQ_dec_val_live; [lia|unfold x; rewrite stuck_add_alloc'; exact E]| |lia].
+    replace 0 with (2 + (-20 + 18)) by lia. eapply (allQ_weaken _ _ _ _ s x); [exact Hx|].
+    eapply allQ_bnd_Q; [apply allQ_dec_val_live; [lia|unfold x; rewrite !stuck_add_alloc; exact E]| |lia].
     intros a y Hq. eapply allQ_le; [apply IH|lia].
     + pose proof (Q_neg_P _ _ _ Hq ltac:(lia)). lia.
     + pose proof (Q_P _ _ _ Hq). lia.
@@ -895,23 +939,23 @@ Proof.
 Qed.
 
 Lemma allQ_results_loop : forall rts n s, (P s <= p0)%nat ->
-  allQ (Z.of_nat (len rts)) s (results_loop orc registry fx fuel rts n s).
+  allQ (2 * Z.of_nat (len rts)) s (results_loop orc registry fx fuel rts n s).
 Proof.
   induction rts as [|sh r IH]; intros n s Hp; cbn [results_loop]; [leafAQ|].
   destruct (n <=? 0)%Z; [leafAQ|].
-  set (x := add_alloc s _). assert (Hx : Q 0 s x) by apply Q_add_alloc. pose proof (Q_P _ _ _ Hx).
-  replace (Z.of_nat (len (sh :: r))) with (0 + (1 + Z.of_nat (len r))) by (cbn [len]; lia).
+  set (x := add_alloc s _). assert (Hx : Q 1 s x) by apply Q_add_alloc. pose proof (Q_P _ _ _ Hx).
+  replace (2 * Z.of_nat (len (sh :: r))) with (1 + (1 + 2 * Z.of_nat (len r))) by (cbn [len]; lia).
   eapply (allQ_weaken _ _ _ _ s x); [exact Hx|].
   eapply allQ_bnd_Q; [apply allQ_dec_val; lia| |lia].
   intros a y Hq. apply IH. pose proof (Q_P _ _ _ Hq). lia.
 Qed.
 
 Lemma allQ_client_decode : forall rts bs, (S (len bs) <= p0)%nat ->
-  allQ (3 * c0 + 20 + Z.of_nat (len rts)) (init bs false) (client_decode orc registry fx fuel rts bs).
+  allQ (3 * c0 + 30 + 2 * Z.of_nat (len rts)) (init bs false) (client_decode orc registry fx fuel rts bs).
 Proof.
   intros rts bs Hp. unfold client_decode.
   assert (Hp0 : (P (init bs false) <= p0)%nat) by (rewrite P_init; exact Hp).
-  eapply allQ_le; [apply (allQ_read_header _ _ (3 * c0 + 12 + Z.of_nat (len rts))); [unfold c0; lia|exact Hp0|]|lia].
+  eapply allQ_le; [apply (allQ_read_header _ _ (3 * c0 + 22 + 2 * Z.of_nat (len rts))); [unfold c0; lia|exact Hp0|]|lia].
   intros t h x Hx. destruct (tag_is t "R").
   - apply allQ_header_simple. intros smp.
     set (x1 := if smp then set_simple x true else x).
@@ -919,7 +963,7 @@ Proof.
     pose proof (Q_P _ _ _ H1) as HP1.
     destruct rts as [|sh [|sh2 r]].
     + leafAQ.
-    + set (y := add_alloc x1 _). assert (Hy : Q 0 x1 y) by apply Q_add_alloc. pose proof (Q_P _ _ _ Hy).
+    + set (y := add_alloc x1 _). assert (Hy : Q 1 x1 y) by apply Q_add_alloc. pose proof (Q_P _ _ _ Hy).
       eapply allQ_bnd_ex; [eapply (allQ_weaken _ _ _ _ x y); [solveQ|apply allQ_dec_val; lia]|intros ? ? ?|unfold c0; lia].
       leafAQ.
     + open_primsQ. destruct (tag_is b "a").
@@ -978,11 +1022,11 @@ Proof.
 Qed.
 
 Theorem client_bounds : forall orc reg fx fuel rts bs, enough fuel bs ->
-  all_states (within (3 * c0 + 20 + Z.of_nat (len rts)) bs) (client_decode orc reg fx fuel rts bs) /\
+  all_states (within (3 * c0 + 30 + 2 * Z.of_nat (len rts)) bs) (client_decode orc reg fx fuel rts bs) /\
   forall chk, interp chk (client_decode orc reg fx fuel rts bs) <> VFuel.
 Proof.
   intros orc reg fx fuel rts bs Hf.
-  assert (H : allQ (3 * c0 + 20 + Z.of_nat (len rts)) (init bs false) (client_decode orc reg fx fuel rts bs)).
+  assert (H : allQ (3 * c0 + 30 + 2 * Z.of_nat (len rts)) (init bs false) (client_decode orc reg fx fuel rts bs)).
   { apply (allQ_client_decode orc reg fx fuel (S (len bs))); [exact Hf|lia]. }
   split.
   - eapply all_states_imp; [|apply allQ_all_states; exact H]. intros s Hq. apply (Q_init_bounds _ _ _ _ Hq).
@@ -996,3 +1040,41 @@ Proof. intros. unfold enough. apply fuel_for_enough. Qed.
 Lemma within_no_excess : forall c bs s', within c bs s' -> excess s' = 0%N ->
   Z.of_N (steps s') <= K * (Z.of_nat (len bs) + 1) + c.
 Proof. intros c bs s' [H1 H2] E. rewrite E in H2. lia. Qed.
+
+(* ------------------------------------------------------------------ allocation *)
+
+(* what was allocated on the word of the wire is covered by
+     (largest unit) x (steps + excess + input length)
+   where the unit is the size of one element / pointer target / map entry of a shape in play, 48 per
+   field of an object read as a map, 32 per argument, 16 per field name, 3 per UTF-16 unit, 1 per byte *)
+Definition alloc_ok (bs : bytes) (s' : st) : Prop :=
+  (alloc s' <= um s' * (steps s' + excess s' + N.of_nat (len bs)))%N.
+
+Lemma R_init_alloc : forall bs smp s', R (init bs smp) s' -> alloc_ok bs s'.
+Proof.
+  intros bs smp s' [_ [_ [_ HJ]]]. unfold alloc_ok.
+  assert (H0 : J (len bs) (init bs smp)) by (unfold J; cbn; lia).
+  specialize (HJ (len bs) ltac:(cbn; lia) H0). unfold J, tm in HJ.
+  eapply N.le_trans; [exact HJ|]. apply N.mul_le_mono_l. lia.
+Qed.
+
+Theorem unmarshal_alloc : forall orc reg fx fuel bs smp sh,
+  all_states (alloc_ok bs) (unmarshal orc reg fx fuel bs smp sh).
+Proof.
+  intros. eapply all_states_imp; [apply R_init_alloc|]. apply allR_all_states. unfold unmarshal. apply allR_dec_val.
+Qed.
+Theorem service_alloc : forall orc reg fx fuel ms missing bs,
+  all_states (alloc_ok bs) (service_decode orc reg fx fuel ms missing bs).
+Proof. intros. eapply all_states_imp; [apply (R_init_alloc bs false)|]. apply allR_all_states. apply allR_service_decode. Qed.
+Theorem client_alloc : forall orc reg fx fuel rts bs,
+  all_states (alloc_ok bs) (client_decode orc reg fx fuel rts bs).
+Proof. intros. eapply all_states_imp; [apply (R_init_alloc bs false)|]. apply allR_all_states. apply allR_client_decode. Qed.
+
+(* with the step bound: linear in the input exactly when nothing announced stays undelivered *)
+Lemma alloc_linear : forall c bs s', alloc_ok bs s' -> within c bs s' -> 0 <= c ->
+  Z.of_N (alloc s') <= Z.of_N (um s') * ((K + 1) * (Z.of_nat (len bs) + 1) + c + 2 * Z.of_N (excess s')).
+Proof.
+  intros c bs s' Ha [Hs Hx] Hc. unfold alloc_ok in Ha.
+  assert (H1 : Z.of_N (alloc s') <= Z.of_N (um s') * (Z.of_N (steps s') + Z.of_N (excess s') + Z.of_nat (len bs))) by nia.
+  eapply Z.le_trans; [exact H1|]. apply Z.mul_le_mono_nonneg_l; [lia|]. unfold K in *. lia.
+Qed.
